@@ -571,6 +571,8 @@ def literal_family(tier, seed):
         set(), {1}, {1, 2}, {1, "a"}, frozenset(), frozenset({1}), frozenset({1, 2}), {(1,)},
         {}, {"a": 1}, {1: (2,)}, {"a": [1, {"b": (3,)}]}, {True: 1},
         slice(1, 10, 2), slice(None), slice(1, 5), range(3), range(1, 10, 2), range(0, 5),
+        slice(1, None), slice(None, None, 2), slice(-3, None, 1), slice(None, 5), slice(None, 5, None), slice(0, None, None),
+        range(0), range(5, 0, -1), range(-2, 2),
         len, int, print, object, type(None),
     ]
     # containers that name the same inner object more than once (siblings, not cycles) and deeper nestings
